@@ -43,6 +43,8 @@ def main(argv=None):
     ap.add_argument("--no-evidence", action="store_true")
     ap.add_argument("--verbose", "-v", action="store_true")
     ap.add_argument("--limit-family", type=int, default=None)
+    ap.add_argument("--all-violations", action="store_true",
+                    help="quick tier: do not stop at the first violation confirmed on the real code")
     args = ap.parse_args(argv)
     runner.load_contracts()
     if args.list:
@@ -98,7 +100,9 @@ def run_property(args):
         for p in fam:
             jobs.append((h.name, p, opts))
     # longest-first is unknown; just run
-    results = runner.run_jobs(jobs, args.jobs)
+    fail_fast = args.tier == "quick" and not args.all_violations
+    results = runner.run_jobs(jobs, args.jobs, fail_fast=fail_fast)
+    stopped_early = len(results) < len(jobs)
     # ---------------- aggregate
     obligations = 0
     discharged = 0
@@ -183,8 +187,8 @@ def run_property(args):
                 samples.append({"static_obligation": s["name"], "status": "proved", "detail": s.get("detail")})
         else:
             violations.append(("static", {}, s["name"], {"static": s, "models": []}, None))
-    # vacuity guards
-    for h in hs:
+    # vacuity guards (not meaningful for a run that was cut short by a confirmed violation)
+    for h in ([] if stopped_early else hs):
         if feas_by_h.get(h.name, 0) == 0 and not any("crash" in r for r in results if r["harness"] == h.name):
             if not any(h.name in u for u in undecided):
                 errors.append(f"vacuity: harness {h.name} has no feasible completed path (canary)")
@@ -225,6 +229,9 @@ def run_property(args):
     for fid, where in sorted(knowns.items()):
         f = kf.get(fid, {})
         lines.append(f"KNOWN-FINDING: property={prop} {fid}: {f.get('what', '')} [{len(where)} obligation instance(s)]")
+    if stopped_early:
+        lines.append(f"    note: stopped after the first confirmed violation ({len(results)} of {len(jobs)} family members "
+                     f"explored; --all-violations explores all)")
     for u in undecided[:20]:
         lines.append(f"UNDECIDED property={prop} {u}")
     for e in errors[:20]:
@@ -238,7 +245,9 @@ def run_property(args):
     else:
         code = 0
     if nviol:
-        code = 1 if not errors else code
+        # a refuted obligation stands whatever else went wrong in other family members (crashes and undecided members
+        # are still listed above)
+        code = 1
     wall = time.time() - t0
     if code == 0:
         lines.insert(0, f"HELD property={prop} obligations={obligations} discharged={discharged} bounded={bounded_ok}/{bounded} "
